@@ -75,9 +75,9 @@ Definition pEntdesc : P entdesc :=
               (pPair (pOpt pN) (fun l => match l with x :: r => Some (state_of x, r) | [] => None end))).
 
 Definition pFeatdesc : P featdesc :=
-  pMap (fun x => match x with (a, (t, (r, (f, sg)))) => {| fd_addr := a; fd_type := t; fd_role := r; fd_fns := f; fd_sig := sg |} end)
+  pMap (fun x => match x with (a, (t, (r, f))) => {| fd_addr := a; fd_type := t; fd_role := r; fd_fns := f |} end)
        (pPair (pOpt pFaddr) (pPair (pOpt pN)
-          (pPair (fun l => match l with x :: r => Some (role_of x, r) | [] => None end) (pPair (pList (pPair pB pB)) pN)))).
+          (pPair (fun l => match l with x :: r => Some (role_of x, r) | [] => None end) (pList (pPair pB pB))))).
 
 Definition pDevinfo : P (option (option (option N))) :=
   fun l => match l with
